@@ -114,7 +114,24 @@ class C20(Check):
                 ops.append(['batch', e, [[1, [5]], [0, None], [2, None]]])
             return ops
         s_scenario2 = st.builds(scenario2, s_ep, s_patch, s_patch, st.sampled_from(['once', 'remove']), st.booleans())
-        s_ops = st.one_of(st.lists(s_op, min_size=2, max_size=8), st.lists(s_op, min_size=2, max_size=8), s_scenario, s_scenario2)
+
+        # a pair is patched, used part of the way through its rotation, cleared (remove method / remove endpoint / reset / used-up once
+        # patches) and patched again: the new patches answer from THEIR first one on
+        def scenario3(e, m, first, used, how, second, calls):
+            ops = [['add', e, m, p, how == 'once'] for p in first]
+            ops += [['call', e, m, [n], n] for n in range(used if how != 'once' else len(first))]
+            if how == 'remove-method':
+                ops.append(['remove', e, m])
+            elif how == 'remove-endpoint':
+                ops.append(['remove', e, None])
+            elif how == 'reset':
+                ops.append(['reset'])
+            ops += [['add', e, m, p, False] for p in second]
+            ops += [['call', e, m, {'a': n}, 10 + n] for n in range(calls)]
+            return ops
+        s_scenario3 = st.builds(scenario3, s_ep, st.sampled_from([0, 1]), st.lists(s_patch, min_size=2, max_size=3), st.integers(1, 2),
+                                st.sampled_from(['remove-method', 'remove-endpoint', 'reset', 'once']), st.lists(s_patch, min_size=2, max_size=3), st.integers(3, 5))
+        s_ops = st.one_of(st.lists(s_op, min_size=2, max_size=8), st.lists(s_op, min_size=2, max_size=8), s_scenario, s_scenario2, s_scenario3)
         return st.builds(
             lambda t, pt, ops: {'target': t, 'passthrough': pt if t != 'requests' else False, 'ops': [list(o) for o in ops]},
             st.sampled_from(['sync', 'sync', 'async', 'async', 'requests']), st.booleans(), s_ops,
@@ -126,6 +143,10 @@ class C20(Check):
             {'target': 'sync', 'passthrough': False, 'ops': [['add', 0, 0, r(1), False], ['call', 0, 0, [1], 0], ['call', 0, 0, None, '']]},
             {'target': 'async', 'passthrough': True, 'ops': [['add', 0, 0, r('a'), True], ['add', 0, 0, r('b'), False], ['add', 0, 0, {'kind': 'callback'}, False],
                                                                ['call', 0, 0, [1], 1], ['call', 0, 0, {'a': 1}, 2], ['call', 0, 0, [], 3], ['call', 0, 0, [1], 4], ['call', 1, 0, [1], 5]]},
+            {'target': 'sync', 'passthrough': False, 'ops': [['add', 0, 0, r('A'), False], ['add', 0, 0, r('B'), False], ['call', 0, 0, [1], 1], ['remove', 0, 0],
+                                                              ['add', 0, 0, r('C'), False], ['add', 0, 0, r('D'), False], ['call', 0, 0, [1], 2], ['call', 0, 0, [1], 3], ['call', 0, 0, [1], 4]]},
+            {'target': 'async', 'passthrough': True, 'ops': [['add', 1, 1, r('A'), False], ['add', 1, 1, r('B'), False], ['add', 1, 1, r('B2'), False], ['call', 1, 1, [1], 1],
+                                                               ['remove', 1, None], ['add', 1, 1, r('C'), False], ['add', 1, 1, r('D'), False], ['call', 1, 1, [1], 2], ['call', 1, 1, [1], 3]]},
             {'target': 'requests', 'passthrough': False, 'ops': [['add', 0, 0, {'kind': 'error', 'code': 0, 'message': '', 'data': None}, False],
                                                                    ['batch', 0, [[0, [1]], [2, None], [0, {'a': 1}]]], ['remove', 0, 0], ['call', 0, 0, [1], 1]]},
         ]
